@@ -3,13 +3,13 @@ from __future__ import annotations
 
 import ast
 import itertools
-from typing import Any, List, Tuple
+from typing import Dict, Any, List, Tuple
 
 from ..core import Ctx
 
 THEOREMS = ["Visitor.prune_meaning", "Visitor.escape_iff", "Visitor.nested", "Visitor.balanced",
             "Visitor.main_trace", "Visitor.enter_once", "Visitor.order_visit", "Visitor.order_depart",
-            "Visitor.builder_stack_empty"]
+            "Visitor.builder_stack_empty", "Visitor.dispatch_same_family", "Visitor.dispatch_unpaired_counterexample"]
 RULE = ("exhaustive: every ordered tree of <=4 nodes (9 shapes) x every assignment of the 5 pruning actions x every "
         "subset of the 4 timings (one extension each) run through the real pydoctor.visitor.Visitor.walkabout/walk and "
         "through the Lean model; plus random trees of 5-9 nodes with repeated timings; plus the real ASTBuilder on "
@@ -64,17 +64,57 @@ def tree_tokens(t) -> str:
 
 # ------------------------------------------------------------------ implementation adapter
 
-def run_impl(tree, exts: str, mode: str, late: int = 0) -> str:
+def run_impl(tree, exts: str, mode: str, late: int = 0, kinds: str = "", pairs: Any = None) -> str:
     """`late` > 0: the last `late` extensions are registered AFTER a first complete walk of the same visitor
-    instance (ExtList.add on a live visitor); the trace returned is that of the second walk"""
+    instance (ExtList.add on a live visitor); the trace returned is that of the second walk.
+    `kinds`: node class per preorder id — N (handlers visit_N / depart_N), L (class Low, handlers visit_low / depart_low:
+    the lower-case lookup), S (a SUBCLASS of N without handlers of its own: generic handlers), O (unrelated class: generic
+    handlers). Every handler behaves alike, so the trace does not depend on the dispatch; which handler FAMILY entered and
+    left each node is recorded in `pairs` {(who, id): [enter family, leave family]}."""
     from pydoctor import visitor as V
 
     log: List[str] = []
+    if pairs is None:
+        pairs = {}
 
     class N:
         def __init__(self, t):
             self.id, self.act, kids = t
-            self.children = [N(k) for k in kids]
+            self.children = [mknode(k) for k in kids]
+
+    class SubN(N):
+        pass
+
+    class Other:
+        def __init__(self, t):
+            self.id, self.act, kids = t
+            self.children = [mknode(k) for k in kids]
+
+    class Low:                           # a class of its own, handled through the lower-case names
+        def __init__(self, t):
+            self.id, self.act, kids = t
+            self.children = [mknode(k) for k in kids]
+
+    def mknode(t):
+        k = kinds[t[0]] if t[0] < len(kinds) else "N"
+        return {"N": N, "L": Low, "S": SubN, "O": Other}[k](t)
+
+    def enter(self, ob, fam):
+        pairs.setdefault(("M", ob.id), [None, None])[0] = fam
+        log.append("Mv%d" % ob.id)
+        a = ob.act
+        if a == "c":
+            raise self.SkipChildren()
+        if a == "s":
+            raise self.SkipSiblings()
+        if a == "k":
+            raise self.SkipNode()
+        if a == "d":
+            raise self.SkipDeparture()
+
+    def leave(self, ob, fam):
+        pairs.setdefault(("M", ob.id), [None, None])[1] = fam
+        log.append("Md%d" % ob.id)
 
     class Main(V.Visitor):
         @classmethod
@@ -82,38 +122,61 @@ def run_impl(tree, exts: str, mode: str, late: int = 0) -> str:
             return ob.children
 
         def visit_N(self, ob):
-            log.append("Mv%d" % ob.id)
-            a = ob.act
-            if a == "c":
-                raise self.SkipChildren()
-            if a == "s":
-                raise self.SkipSiblings()
-            if a == "k":
-                raise self.SkipNode()
-            if a == "d":
-                raise self.SkipDeparture()
+            enter(self, ob, "N")
 
         def depart_N(self, ob):
-            log.append("Md%d" % ob.id)
+            leave(self, ob, "N")
+
+        def visit_low(self, ob):
+            enter(self, ob, "low")
+
+        def depart_low(self, ob):
+            leave(self, ob, "low")
+
+        def unknown_visit(self, ob):
+            enter(self, ob, "generic")
+
+        def unknown_departure(self, ob):
+            leave(self, ob, "generic")
 
     whens = {"b": V.When.BEFORE, "a": V.When.AFTER, "i": V.When.INNER, "o": V.When.OUTTER}
     classes = []
     for idx, ch in enumerate(exts):
         def mk(idx=idx, ch=ch):
+            def ev(ob, fam):
+                pairs.setdefault(("E%d" % idx, ob.id), [None, None])[0] = fam
+                log.append("E%dv%d" % (idx, ob.id))
+
+            def ed(ob, fam):
+                pairs.setdefault(("E%d" % idx, ob.id), [None, None])[1] = fam
+                log.append("E%dd%d" % (idx, ob.id))
+
             class E(V.VisitorExt):
                 when = whens[ch]
 
                 def visit_N(self, ob):
-                    log.append("E%dv%d" % (idx, ob.id))
+                    ev(ob, "N")
 
                 def depart_N(self, ob):
-                    log.append("E%dd%d" % (idx, ob.id))
+                    ed(ob, "N")
+
+                def visit_low(self, ob):
+                    ev(ob, "low")
+
+                def depart_low(self, ob):
+                    ed(ob, "low")
+
+                def unknown_visit(self, ob):
+                    ev(ob, "generic")
+
+                def unknown_departure(self, ob):
+                    ed(ob, "generic")
             return E
         classes.append(mk())
     if late:
         vis = Main(V.ExtList(*classes[:len(classes) - late]))
         try:
-            vis.walkabout(N(tree))
+            vis.walkabout(mknode(tree))
         except V.Visitor._TreePruningException:
             pass
         vis.extensions.add(*classes[len(classes) - late:])
@@ -121,7 +184,7 @@ def run_impl(tree, exts: str, mode: str, late: int = 0) -> str:
         del log[:]
     else:
         vis = Main(V.ExtList(*classes))
-    root = N(tree)
+    root = mknode(tree)
     outcome = "return"
     try:
         if mode == "walkabout":
@@ -352,6 +415,37 @@ def run(ctx: Ctx) -> None:
         v = oracle(t, ex, out)
         if v:
             ctx.fail("late-extension:" + v[0], {"tree": t, "exts": ex, "mode": "walkabout", "late": late, "impl": out}, v[1])
+    # node classes: exact handler names, the lower-case lookup, a subclass of a handled class, an unrelated class.
+    # Every handler behaves alike (same trace, same model request); what is checked on top is that a node is left
+    # through the same handler family it was entered through, by the main visitor and by every extension
+    for _ in range(1500 if ctx.quick else 20000):
+        n = ctx.rng.randint(1, 6)
+        sh = rand_shape(ctx.rng, n)
+        acts = [ctx.rng.choice(ACTS if ctx.rng.random() < 0.5 else "n") for _ in range(n)]
+        ex = "".join(ctx.rng.choice(TIMINGS) for _ in range(ctx.rng.randint(0, 4)))
+        kinds = "".join(ctx.rng.choice("NNLSO") for _ in range(n))
+        t = label(sh, acts)
+        req = "visitor walkabout %s %s" % (ex or "-", tree_tokens(t))
+        pairs: Dict[Any, Any] = {}
+        out = run_impl(t, ex, "walkabout", kinds=kinds, pairs=pairs)
+        reqs.append(req)
+        impls.append(out)
+        payload.append({"tree": t, "exts": ex, "mode": "walkabout", "kinds": kinds})
+        ctx.case(req + "#kinds" + kinds, True)
+        ctx.count("mode:walkabout-mixed-node-classes")
+        v = oracle(t, ex, out)
+        if v:
+            ctx.fail("node-classes:" + v[0], {"tree": t, "exts": ex, "mode": "walkabout", "kinds": kinds, "impl": out}, v[1])
+        want = {"N": "N", "L": "low", "S": "generic", "O": "generic"}
+        for (who, nid), (fa, fb) in sorted(pairs.items()):
+            if fb is not None and fa != fb:
+                ctx.fail("dispatch:entered-and-left-through-different-handlers", {"tree": t, "exts": ex, "mode": "walkabout", "kinds": kinds, "impl": out},
+                         f"{who}: node {nid} (class kind {kinds[nid]}) entered through the {fa} handler, left through the {fb} handler")
+                break
+            if fa is not None and fa != want[kinds[nid]]:
+                ctx.fail("dispatch:handler-not-chosen-by-class-name", {"tree": t, "exts": ex, "mode": "walkabout", "kinds": kinds, "impl": out},
+                         f"{who}: node {nid} of class kind {kinds[nid]} was entered through the {fa} handler (documented: 'visit_' + class name, else the generic one)")
+                break
     for t, ex, mode in cases:
         req = "visitor %s %s %s" % (mode, ex or "-", tree_tokens(t))
         out = run_impl(t, ex, mode)
@@ -367,6 +461,47 @@ def run(ctx: Ctx) -> None:
             if v:
                 ctx.fail(v[0], {"tree": t, "exts": ex, "mode": mode, "impl": out}, v[1])
     ctx.compare("visitor-trace", reqs, impls, payload)
+    # _BaseVisitor.visit / depart: which method handles a class, for visitors defining arbitrary subsets of handlers
+    dreqs, dimpls, dpay = [], [], []
+    from pydoctor import visitor as V
+    pool = ["visit_N", "depart_N", "visit_n", "depart_n", "visit_Low", "depart_Low", "visit_low", "depart_low",
+            "visit_SubN", "depart_subn", "visit_other", "depart_Other", "visit_", "depart_", "visit_NN"]
+    clsnames = ["N", "Low", "SubN", "Other", "n", "NN", "low"]
+    for _ in range(1200 if ctx.quick else 12000):
+        defined = sorted(set(ctx.rng.sample(pool, ctx.rng.randint(0, 6))))
+        cname = ctx.rng.choice(clsnames)
+        got: List[str] = []
+        ns: Dict[str, Any] = {}
+        for mname in defined:
+            ns[mname] = (lambda mname: (lambda self, ob: got.append(mname)))(mname)
+        ns["unknown_visit"] = lambda self, ob: got.append("unknown")
+        ns["unknown_departure"] = lambda self, ob: got.append("unknown")
+        ns["get_children"] = classmethod(lambda cls, ob: [])
+        Vis = type("Vis", (V.Visitor,), ns)
+        base = type("N", (), {}) if cname == "SubN" else object
+        ob = type(cname, (base,), {})()
+        v = Vis()
+        try:
+            V._BaseVisitor.visit(v, ob)
+            V._BaseVisitor.depart(v, ob)
+            def fam(pre, m):
+                if m == "unknown":
+                    return "unknown"
+                return ("exact:" if m == pre + cname else "lower:") + m
+            impl = "ok %s %s" % (fam("visit_", got[0]), fam("depart_", got[1]))
+        except Exception as e:
+            impl = "Crash:" + type(e).__name__
+        dreqs.append("visitor dispatch %s %s" % (cname, ",".join(defined) or "-"))
+        dimpls.append(impl)
+        dpay.append({"class": cname, "defined": defined})
+        ctx.count("dispatch-cases")
+        paired = all((("visit_" + x) in defined) == (("depart_" + x) in defined) for x in (cname, cname.lower()))
+        if paired and impl.startswith("ok"):
+            a, b = impl.split()[1:3]
+            if a.split(":")[0] != b.split(":")[0]:
+                ctx.fail("dispatch:entered-and-left-through-different-handlers", {"class": cname, "defined": defined},
+                         f"handlers defined in pairs, yet {cname} is entered through {a} and left through {b}")
+    ctx.compare("visitor-dispatch", dreqs, dimpls, dpay)
     ctx.exhaustive = True
     # builder stream
     nmods = 300 if ctx.quick else 5000
@@ -408,7 +543,10 @@ def replay(ctx: Ctx, obj) -> int:
     if "tree" in inp:
         t = inp["tree"]
         t = tuple_tree(t)
-        out = run_impl(t, inp["exts"], inp.get("mode", "walkabout"), late=inp.get("late", 0))
+        pairs = {}
+        out = run_impl(t, inp["exts"], inp.get("mode", "walkabout"), late=inp.get("late", 0), kinds=inp.get("kinds", ""), pairs=pairs)
+        if inp.get("kinds"):
+            print("node classes:", inp["kinds"], " handler families (enter, leave):", {"%s@%d" % k: v for k, v in sorted(pairs.items())})
         req = "visitor %s %s %s" % (inp.get("mode", "walkabout"), inp["exts"] or "-", tree_tokens(t))
         print("request:", req)
         print("impl   :", out)
